@@ -2,6 +2,7 @@ package c07
 
 import (
 	"bytes"
+	"flag"
 	"fmt"
 	"strings"
 	"testing"
@@ -60,7 +61,7 @@ func genTamperCase(t *rapid.T) TamperCase {
 		c.Sweep = &p
 		return c
 	}
-	n := rapid.IntRange(4, 12).Draw(t, "npoints")
+	n := rapid.IntRange(16, 32).Draw(t, "npoints")
 	for i := 0; i < n; i++ {
 		c.Points = append(c.Points, genPoint(t))
 	}
@@ -207,11 +208,12 @@ func CheckTamper(c TamperCase) (hx.Vs, *tamperInfo) {
 	return vs, info
 }
 
-// TestTamper: quick 4 shards x 48 cases x 4-12 points = about 1500 single-byte modifications.
+// TestTamper: quick 1 shard x 64 cases x 16-32 points = about 1500 single-byte modifications.
 func TestTamper(t *testing.T) {
 	const name = "TestTamper"
-	R.Rule(name, "keystore of either format with 1-2 client ids, all six key kinds, 0-2 rotations; 4-12 single-byte modifications (object generated among all stored objects incl. v1 historical and public key files; position anywhere / near the start / near the end; single-bit flip or arbitrary xor mask), each applied alone and undone; thorough: additionally every byte position of a generated object. Oracle: v2 key ring - every reader of that key fails; v1 key file - every reader fails or returns only values the key offered before. Non-trivial = at least one modification was applied and read back (always)")
-	hx.Checks(48, 500)
+	R.Rule(name, "keystore of either format with 1-2 client ids, all six key kinds, 0-2 rotations; 16-32 single-byte modifications (object generated among all stored objects incl. v1 historical and public key files; position anywhere / near the start / near the end; single-bit flip or arbitrary xor mask), each applied alone and undone; thorough: additionally every byte position of a generated object. Oracle: v2 key ring - every reader of that key fails; v1 key file - every reader fails or returns only values the key offered before. Non-trivial = at least one modification was applied and read back (always)")
+	hx.Checks(64, 600)
+	flag.Set("rapid.shrinktime", "10s") // cases are small; every evaluation builds a keystore
 	rapid.Check(t, func(rt *rapid.T) {
 		c := genTamperCase(rt)
 		vs, info := CheckTamper(c)
